@@ -204,6 +204,9 @@ func (p *packer) checkFloatSize(max float64) bool {
 }
 
 func (p *packer) writeByte(b byte) bool {
+	if !p.consumeBudget(1) {
+		return false
+	}
 	p.w.WriteByte(b)
 	return true
 }
